@@ -8,8 +8,10 @@ loop header and its body.  Clauses are kept in /verif/contracts/<file>.loops, ke
 
 Guarantees checked on every run (abort with AnnotateError -> exit 2 otherwise):
   * every key in the .loops file is found (function exists, has that many loops);
-  * only text of the form " /*@LC*/ <clauses> /*@*/ " is inserted, on the same line, so line
-    numbers are those of the repository file;
+  * only text of the form " /*@LC*/ <macro name> /*@*/ " is inserted, on the same line, so line
+    numbers are those of the repository file; the macro is either the loop-contract clauses (LC_...) or, before the
+    closing brace of an annotated loop body, a reachability probe (LCP_... = __CPROVER_assert(0, "reach:lc:<fn>:<n>");
+    an assertion has no effect on the other obligations, it only tells whether that point is reachable);
   * removing exactly the inserted spans gives back the repository file byte for byte.
 
 .loops format:
@@ -22,6 +24,7 @@ import sys
 import os
 
 NEEDS = {}
+PROBES = set()
 BEGIN = " /*@LC*/ "
 END = " /*@*/ "
 
@@ -290,8 +293,19 @@ def lc_name(tag, key):
     return "LC_%s_%s_%d" % (tag, re.sub(r"\W", "_", key[0]), key[1])
 
 
+def body_end(src, m, off):
+    """offset of the closing brace of the loop body that follows the insertion point off (None if the body is not a block)"""
+    k = off
+    while k < len(m) and m[k].isspace():
+        k += 1
+    if k >= len(m) or m[k] != "{":
+        return None
+    return match_paren(m, k, "{", "}")
+
+
 def annotate_text(src, clauses, tag="x"):
     table, counts = loop_map(src)
+    m = mask(src)
     ins = []
     for key, text in clauses.items():
         text = lc_name(tag, key)
@@ -299,6 +313,12 @@ def annotate_text(src, clauses, tag="x"):
             raise AnnotateError("anchor not found: function %s loop %d (function has %s loops)"
                                 % (key[0], key[1], counts.get(key[0], "no such function;")))
         ins.append((table[key], BEGIN + text + END))
+        # reachability probe at the end of the loop body (vacuity guard for the post-havoc copy of the body)
+        if not key[0].startswith("macro:"):
+            be = body_end(src, m, table[key])
+            if be is not None:
+                ins.append((be, BEGIN + "LCP" + text[2:] + END))
+                PROBES.add((tag, key))
     ins.sort()
     out = []
     last = 0
@@ -332,6 +352,9 @@ def annotate_file(repo_file, loops_file, out_file):
         name = lc_name(tag, key)
         cond = "!defined(VERIF_NO_LC)" + (" && defined(%s)" % need if need else "")
         defs.append("#if %s\n#define %s %s\n#else\n#define %s\n#endif" % (cond, name, text, name))
+        if (tag, key) in PROBES:
+            pname = "LCP" + name[2:]
+            defs.append('#if %s\n#define %s __CPROVER_assert(0, "reach:lc:%s:%d");\n#else\n#define %s\n#endif' % (cond, pname, key[0], key[1], pname))
     return {"file": os.path.basename(repo_file), "loops_annotated": len(clauses), "_defs": defs,
             "loops_total": sum(v for k, v in counts.items() if not k.startswith("macro:"))}
 
